@@ -70,15 +70,21 @@ def call_seg(rows, thr, mode, scale=1):
         e["pre"] = [1] * n
     elif h == 2:
         e["pre"] = [(i + 1) % 2 for i in range(n)]
+    # aliasing variant: the marker is written over one of the tested features (binarisation in place); every observation's
+    # marker follows from the values on entry
+    outn = "out"
+    if h == 3 and not e["pre"]:
+        outn = names[-1]
+        e["hist"] = "output = last tested feature"
     if e["pre"]:
         tr.createAnalyticalFeature("out", list(e["pre"]))
     try:
         with core.quiet():
             if k == 1 and n % 2:
-                segmentation(tr, names[0], "out", thr[0] / scale, MODE_COMPARAISON_AND if mode == "and" else MODE_COMPARAISON_OR)
+                segmentation(tr, names[0], outn, thr[0] / scale, MODE_COMPARAISON_AND if mode == "and" else MODE_COMPARAISON_OR)
             else:
-                segmentation(tr, names, "out", [t / scale for t in thr], MODE_COMPARAISON_AND if mode == "and" else MODE_COMPARAISON_OR)
-            out = [tr["out", i] for i in range(n)]
+                segmentation(tr, names, outn, [t / scale for t in thr], MODE_COMPARAISON_AND if mode == "and" else MODE_COMPARAISON_OR)
+            out = [tr[outn, i] for i in range(n)]
         e["out"] = [int(v) if v in (0, 1) else 7 for v in out]
     except (Exception, SystemExit) as ex:
         e["raised"] = True
